@@ -14,6 +14,7 @@ import struct
 import unittest.mock
 
 from common import hx, setup_repo_import
+from lib import doip2 as TWO
 from lib import doipsys as SYS
 from vloop import MemWriter, Stall, vrun
 
@@ -1106,6 +1107,174 @@ def run_sys(ctx, pool):
     ctx.notes["sys_alive_replies"] = alive_total
 
 
+
+# --------------------------------------------------------------------------------------------------------------
+# two client tasks on one connection (lib/doip2.py): one blocked in read() while the other writes, then reads
+
+T2_A = {"R": lambda tmo: [[10, "read", tmo]], "R;R": lambda tmo: [[10, "read", tmo], [20, "read", 300]]}
+T2_B = {
+    "W;R": [[200, "write", W1], [30, "read", 500]],
+    "W;R;W;R": [[200, "write", W1], [30, "read", 500], [30, "write", W2], [30, "read", 500]],
+    "W;W;R;R": [[200, "write", W1], [30, "write", W2], [30, "read", 500], [30, "read", 500]],
+}
+T2_ACKS = ["ap", "a1", "an", "ax", "none", "ao", "a-wrong-echo"]
+T2_ARR = ["ack,resp", "ack+resp", "resp,ack", "alive+ack,foreign+resp", "foreign,ack,alive,resp"]
+T2_UNSOL = {
+    "-": [], "dT@105": [[105, ["dT"]]], "dT@405": [[405, ["dT"]]], "dO@150,dT@1205": [[150, ["dO"]], [1205, ["dT"]]],
+    "al@150,al@230": [[150, ["al"]], [230, ["al"]]], "dT+dO@105,al@215,dT@520": [[105, ["dT", "dO"]], [215, ["al"]], [520, ["dT"]]],
+}
+
+
+def t2_script(cfg, aname, tmo, bname, acks, arr, uname, drain=1):
+    src, tgt, _ = cfg
+    n = [0]
+
+    def fr(cls, req=None, k=0):
+        if cls == "dT":
+            n[0] += 1
+            return ["diag", tgt, src, bytes([0x6A, n[0]]).hex()]
+        if cls == "resp":
+            return ["diag", tgt, src, bytes([int(req[:2], 16) + 0x40, k]).hex() + req[2:]]
+        if cls == "dO":
+            n[0] += 1
+            return ["diag", (tgt + 1) & 0xFFFF, src, bytes([0x7F, n[0]]).hex()]
+        if cls == "al":
+            return ["alive", ""]
+        if cls == "ap":
+            return ["ackp", tgt, src, ""]
+        if cls == "a1":
+            return ["ackp", tgt, src, req]
+        if cls == "an":
+            return ["ackn", tgt, src, 6, ""]
+        if cls == "ax":
+            return ["ackn", tgt, src, 3, req]
+        if cls == "ao":
+            return ["ackp", (tgt + 1) & 0xFFFF, src, ""]
+        if cls == "a-wrong-echo":
+            return ["ackp", tgt, src, "99"]
+        raise ValueError(cls)
+
+    gw = [[t, [fr(c) for c in cls]] for t, cls in T2_UNSOL[uname]]
+    on_req = []
+    reqs = [e[2] for e in T2_B[bname] if e[1] == "write"]
+    for k, (req, ack) in enumerate(zip(reqs, acks)):
+        a = [] if ack == "none" else [fr(ack, req)]
+        r = [fr("resp", req, k)]
+        if arr == "ack,resp":
+            b = [[7, a], [57, r]]
+        elif arr == "ack+resp":
+            b = [[7, a + r]]
+        elif arr == "resp,ack":
+            b = [[7, r], [27, a]]
+        elif arr == "alive+ack,foreign+resp":
+            b = [[7, [fr("al")] + a], [57, [fr("dO")] + r]]
+        else:
+            b = [[3, [fr("dO")]], [7, a], [11, [fr("al")]], [57, r]]
+        on_req.append([x for x in b if x[1]])
+    return {"two": 1, "cfg": list(cfg), "drain": drain, "A": T2_A[aname](tmo), "B": [list(e) for e in T2_B[bname]],
+            "gw": gw, "on_req": on_req,
+            "shape": f"A={aname}({tmo})|B={bname}|acks={','.join(acks)}|{arr}|unsolicited={uname}" + ("" if drain else "|nodrain")}
+
+
+def gen_two_tasks(ctx):
+    rng = ctx.rng
+    n = 0
+    for aname in T2_A:
+        for tmo in (300, 1000, 3000, None):
+            for bname, prog in T2_B.items():
+                nw = sum(1 for e in prog if e[1] == "write")
+                for ack in T2_ACKS:
+                    for arr in T2_ARR:
+                        for uname, uns in T2_UNSOL.items():
+                            if tmo is None and not any("dT" in cls for _, cls in uns):
+                                continue  # a read without timeout needs a message to return at all
+                            acks = [ack] + [rng.choice(T2_ACKS[:4]) for _ in range(nw - 1)]
+                            if nw > 1 and rng.random() < 0.5:
+                                acks.reverse()
+                            cfg = CFGS[0] if rng.random() < 0.8 else rng.choice(CFGS)
+                            n += 1
+                            yield t2_script(cfg, aname, tmo, bname, acks, arr, uname, drain=0 if rng.random() < 0.15 else 1)
+    ctx.exhaustive_parts.append(
+        f"two client tasks on one connection: task A {list(T2_A)} blocked in read() with timeout 300 / 1000 / 3000 ms / none "
+        f"from 10 ms on x task B {list(T2_B)} from 200 ms on x reactive gateway: acknowledgement {T2_ACKS} x arrangement of "
+        f"acknowledgement, response, foreign frame and alive check {T2_ARR} x unsolicited frames {list(T2_UNSOL)} ({n} scripts)")
+
+
+def _two_worker(scripts):
+    setup_repo_import()
+    return [TWO.run_impl(s, enc) for s in scripts]
+
+
+def _two_candidates(s):
+    for who in ("B", "A"):
+        for i in reversed(range(len(s[who]))):
+            yield dict(s, **{who: s[who][:i] + s[who][i + 1:]})
+    for i in reversed(range(len(s["gw"]))):
+        yield dict(s, gw=s["gw"][:i] + s["gw"][i + 1:])
+    for k, b in enumerate(s["on_req"]):
+        for i in reversed(range(len(b))):
+            for j in reversed(range(len(b[i][1]))):
+                b2 = [list(x) for x in b]
+                b2[i] = [b[i][0], b[i][1][:j] + b[i][1][j + 1:]]
+                yield dict(s, on_req=s["on_req"][:k] + [[x for x in b2 if x[1]]] + s["on_req"][k + 1:])
+
+
+def _two_shape(s):
+    cfg = s["cfg"]
+
+    def calls(cs):
+        return ";".join(f"W({e[2]})@{e[0]}" if e[1] == "write" else f"R({e[2]})@{e[0]}" for e in cs)
+    gw = ",".join(f"{t}:" + "+".join(kind_of(f, cfg) for f in fr) for t, fr in s["gw"])
+    rq = "/".join(",".join(f"+{d}:" + "+".join(kind_of(f, cfg) for f in fr) for d, fr in b) for b in s["on_req"])
+    return f"A[{calls(s['A'])}]|B[{calls(s['B'])}]|gw[{gw}]|on-request[{rq}]" + ("" if s.get("drain", 1) else "|nodrain")
+
+
+def run_two(ctx, pool):
+    scripts = list(gen_two_tasks(ctx))
+    if pool is not None and len(scripts) > 500:
+        impls = [r for p in pool.map(_two_worker, _chunks(scripts, 64)) for r in p]
+    else:
+        impls = [TWO.run_impl(s, enc) for s in scripts]
+    seen = {}
+    for s, impl in zip(scripts, impls):
+        ctx.ev()
+        ctx.kind("two-tasks:" + s["shape"].split("|")[0], "two-tasks:" + s["shape"].split("|")[1])
+        ctx.nontrivial("two:" + s["shape"])
+        for d in impl["done"]:
+            ctx.kind(f"two-result:{d[0]}:{d[1]}:" + d[5].split(":")[0])
+        bad = TWO.facts(s, impl)
+        if bad:
+            lst = seen.setdefault(bad[0][0], [0, []])
+            lst[0] += 1
+            lst[1].append(s)
+            lst[1].sort(key=lambda c: (len(json.dumps(c)), json.dumps(c, sort_keys=True)))
+            del lst[1][2:]
+    ctx.traces_validated += len(scripts)
+    ctx.notes["two_task_scripts"] = len(scripts)
+    if scripts:
+        k = min(len(scripts) - 1, 777)
+        ctx.sample({"label": "two-tasks", "script": scripts[k]["shape"], "impl": impls[k]["done"]})
+    for aspect, (count, cases) in seen.items():
+        for s in cases:
+            cur, budget, improved = s, 50, True
+            while improved and budget > 0:
+                improved = False
+                for cand in _two_candidates(cur):
+                    budget -= 1
+                    if budget <= 0:
+                        break
+                    b = TWO.facts(cand, TWO.run_impl(cand, enc))
+                    if b and b[0][0] == aspect:
+                        cur, improved = cand, True
+                        break
+            cur = {k: v for k, v in cur.items() if k != "shape"}
+            impl = TWO.run_impl(cur, enc)
+            b = TWO.facts(cur, impl)
+            text = b[0][1] if b else "(not reproduced after shrinking)"
+            ctx.disagree(f"doip2:{aspect}:{_two_shape(cur)}", f"{text} [{count} two-task scripts fail this clause]", cur,
+                         impl=impl, model="property clauses on the implementation's trace (no model run)",
+                         spec_violated=True, site="gallia.transports.doip.DoIPConnection.read_frame / write_request_raw")
+
 # --------------------------------------------------------------------------------------------------------------
 # shrinking
 
@@ -1217,6 +1386,7 @@ def run(ctx):
         if batch:
             process(batch)
         run_sys(ctx, pool)
+        run_two(ctx, pool)
     finally:
         if pool is not None:
             pool.terminate()
@@ -1238,6 +1408,14 @@ def run(ctx):
 def replay(ctx, case):
     setup_repo_import()
     script = case.get("case", case)
+    if "two" in script:
+        impl = TWO.run_impl(script, enc)
+        print("script:", _two_shape(script))
+        for k, v in impl.items():
+            print(f"   {k:9}: {v}")
+        bad = TWO.facts(script, impl)
+        print("verdict:", bad)
+        return bool(bad)
     if "gw" in script:
         return replay_sys(ctx, script)
     impl = run_impl(script)
